@@ -236,7 +236,8 @@ class CFG:
             for t, lab in n.succ:
                 out = out_base
                 if lab == "exc":
-                    out = frozenset()  # no facts survive an exceptional edge (conservative)
+                    # the statement may have raised midway: its writes may or may not have happened, nothing is established
+                    out = _kill(cur, kills[i])
                 elif isinstance(lab, tuple) and lab[0] == "cond":
                     out = out_base | frozenset(norm.atoms_true(lab[1]))
                 old = IN[t]
